@@ -83,6 +83,10 @@ PROPERTIES = {
                         'quick tier: tables of at most 2 change points for Q2/Q3 plus one chained 3-point shape; thorough: 3 points'],
     },
     'C09': {
+        'technique': 'contract-based deductive verification (per-operation contracts: allowed exceptions, unchanged-after-raise, '
+                     'representation invariant preserved; VCs from the AST of the real source, discharged by z3; bounded-symbolic '
+                     'for the table walkers) composed by an induction over histories on paper, plus a bounded stand-in: native '
+                     'enumeration of all histories of 2/3 public calls (group E2, labelled bounded)',
         'groups': ['E2', 'SL', 'G2', 'G2e', 'A1', 'F3', 'M2', 'V5', 'Y3', 'W2', 'X6', 'S2', 'R4', 'N1', 'H1', 'Q2', 'X1', 'G3', 'X3', 'Z2'],
         'level': 'other',
         'explanation': 'Deductive part (per operation, composed by induction over histories): every contract run treats an exception '
